@@ -116,6 +116,14 @@ check("C17",
       "chunking is validated against Ref.",
       TB, "TLC on the transcribed helpers + trace validation of the real helpers", "DESIGN.md section 5 C17")
 
+check("C19",
+      "MC_Plan: the transcribed decision logic of groupby_reduce (Plan.tla: refusals, engine/strategy/reindex resolution) over the full configuration product "
+      "(201 600 consistent cells): Total, AutoWorksWhereMapReduceDoes, AutoPlanPreconditions (a TLC counterexample, confirmed on the code, led to one of the "
+      "fix: commits). Cells are executed on real flox on ordinary and degenerate inputs under all four methods and the outcome vectors validated by TracePlan.tla "
+      "against the property relation (clean refusal classes; map-reduce ok => auto ok and equal; explicit plans equal or refused); model-vs-code differences are "
+      "DRIFT only; accepted 1-D results are validated against Ref.",
+      TB + " sparse/cubed are not installed.", "TLC on the decision model (full configuration product) + trace validation of executed cells", "DESIGN.md section 5 C19")
+
 ALL = [f"C{n:02d}" for n in range(1, 21)]
 
 def main():
